@@ -56,9 +56,9 @@ def depth(cd):
     return 1
 
 
-def trees(leaves, maxdepth, linear_top=True):
+def trees(leaves, maxdepth, linear_top=True, not_pairs_upto=3):
     """All expression trees up to maxdepth; at the top level (maxdepth) only 'linear' nodes
-    (one operand is a leaf) when linear_top."""
+    (one operand is a leaf) when linear_top.  Two-operand exclusions are built at levels <= not_pairs_upto."""
     level = {1: list(leaves)}
     for d in range(2, maxdepth + 1):
         prev_all = [t for k in range(1, d) for t in level[k]]
@@ -76,7 +76,8 @@ def trees(leaves, maxdepth, linear_top=True):
         for a, b in pairs:
             out.append(('AND', a, b))
             out.append(('OR', a, b))
-            out.append(('NOT', a, b))
+            if d <= not_pairs_upto:
+                out.append(('NOT', a, b))
         if d == 2:
             for a, b, c in itertools.combinations(leaves[:5], 3):
                 out.append(('AND', a, b, c))
@@ -116,7 +117,7 @@ def part_a(tier, i, n, seed, R):
               'str': lambda c: char.PrintableString().subtype(subtypeSpec=c), 'wc': None}
     for dom, leaves, cands, md in plan:
         mk = makers[dom]
-        for cd in trees(leaves, md):
+        for cd in trees(leaves, md, not_pairs_upto=3 if md <= 3 else 2):
             idx += 1
             if (idx + seed) % n != i:
                 continue
@@ -349,13 +350,26 @@ def part_c(tier, i, n, seed, R, idx0):
     idx = idx0
     chain_leaves = [('VR', -2, 4), ('VR', 0, 3), ('SV', 1, 2, 3), ('VR', 1, 2), ('SV', 2)]
     maxlen = 3
-    for L in range(1, maxlen + 1):
-        for chain in itertools.product(chain_leaves, repeat=L):
+    # the root type declares its constraint the documented way, as a class attribute holding any constraint object
+    roots = [None, ('OR', ('VR', -2, 0), ('VR', 2, 4)), ('NOT', ('SV', 1)), ('VR', -2, 4), ('AND', ('VR', -3, 3))]
+    root_types = []
+    for rcd in roots:
+        if rcd is None:
+            root_types.append(univ.Integer)
+        else:
+            root_types.append(type('Root', (univ.Integer,), {'subtypeSpec': C.to_pyasn1(rcd)}))
+    for L, ri in [(L, ri) for L in range(1, maxlen + 1) for ri in range(len(roots))]:
+        if ri and L == maxlen:
+            continue
+        rcd = roots[ri]
+        rpre = (rcd,) if rcd is not None else ()
+        for chain0 in itertools.product(chain_leaves, repeat=L):
             for tagged_at in [None] + list(range(L)):
                 idx += 1
                 if (idx + seed) % n != i:
                     continue
-                types = [univ.Integer()]
+                types = [root_types[ri]()]
+                chain = chain0
                 try:
                     for k, cd in enumerate(chain):
                         kw = {'subtypeSpec': C.to_pyasn1(cd)}
@@ -366,14 +380,14 @@ def part_c(tier, i, n, seed, R, idx0):
                     R.violation('c.derive', {'part': 'c', 'chain': chain, 'tagged_at': tagged_at}, exc_text(e),
                                 'derivation succeeds', pyasn1_site(e), {'c'}, idx)
                     continue
-                feats = {'c', 'len:%d' % L, 'tagged' if tagged_at is not None else 'untagged'}
-                rec = {'part': 'c', 'chain': chain, 'tagged_at': tagged_at}
+                feats = {'c', 'len:%d' % L, 'tagged' if tagged_at is not None else 'untagged',
+                         'root:' + (rcd[0] if rcd else 'none')}
+                rec = {'part': 'c', 'root': rcd, 'chain': chain, 'tagged_at': tagged_at}
                 for lvl in range(1, len(types)):
                     child, parent = types[lvl], types[lvl - 1]
-                    eff_child = ('AND',) + tuple(chain[:lvl])
-                    eff_parent = ('AND',) + tuple(chain[:lvl - 1]) if lvl > 1 else None
+                    eff_child = ('AND',) + rpre + tuple(chain[:lvl])
                     R.evaluations += 1
-                    R.nontrivial((chain, tagged_at, lvl))
+                    R.nontrivial((rcd, chain, tagged_at, lvl))
                     # subset on candidates (real objects)
                     for v in INT_CANDS:
                         okc, _ = raises_constraint(lambda: child.clone(v))
@@ -387,7 +401,7 @@ def part_c(tier, i, n, seed, R, idx0):
                             R.violation('c.not_subset', dict(rec, level=lvl, value=v), 'child admits %d, parent rejects' % v,
                                         'child subset of parent', 'type.base', feats, idx)
                     # recognised as subtype
-                    f2 = feats | {'level:%d' % lvl, 'parent_constrained' if lvl > 1 else 'parent_unconstrained'}
+                    f2 = feats | {'level:%d' % lvl, 'parent_constrained' if (lvl > 1 or rpre) else 'parent_unconstrained'}
                     try:
                         sup = parent.isSuperTypeOf(child)
                     except Exception as e:
@@ -417,8 +431,8 @@ def part_c(tier, i, n, seed, R, idx0):
                 # get into a container declared with the descendant type (checked after the WHOLE chain was derived)
                 for anc in range(0, len(types)):
                     for des in range(anc + 1, len(types)):
-                        eff_anc = ('AND',) + tuple(chain[:anc]) if anc else None
-                        eff_des = ('AND',) + tuple(chain[:des])
+                        eff_anc = ('AND',) + rpre + tuple(chain[:anc]) if (anc or rpre) else None
+                        eff_des = ('AND',) + rpre + tuple(chain[:des])
                         for v in INT_CANDS:
                             if (eff_anc is not None and not C.admits_raw(eff_anc, v)) or C.admits_raw(eff_des, v):
                                 continue
@@ -427,7 +441,7 @@ def part_c(tier, i, n, seed, R, idx0):
                             except pyerr.PyAsn1Error:
                                 continue
                             R.evaluations += 1
-                            R.nontrivial((chain, tagged_at, 'neg', anc, des, v))
+                            R.nontrivial((rcd, chain, tagged_at, 'neg', anc, des, v))
                             f3 = feats | {'negative_direction', 'anc:%d' % anc, 'des:%d' % des}
                             for kind in ('field', 'member'):
                                 if kind == 'field':
